@@ -10,7 +10,8 @@ package trafficlogger
 //   - the online listing counts connects minus disconnects and lists nobody with zero;
 //   - the bytes of accepted reports are conserved over clearing snapshots + the current one.
 // The dimension is the cross product of the three API groups in one history: a kick followed by
-// online-state changes, a clear between a kick and its report, a report of an offline user, ...
+// online-state changes, a clear between a kick and its report, a report of an offline user, ... and the size of the
+// report that meets the kick (16+1 bytes or none at all, see c15hReportU0).
 // Added after the independently seeded change C15-7 (LogOnlineState(id,false) also deleted the
 // user's pending kick when the last connection went away, so connect, kick, disconnect, connect,
 // report accepted the report that had to be refused).
@@ -42,10 +43,18 @@ const (
 	c15hTraffic
 	c15hTrafficClear
 	c15hOnline
+	// the SIZE of a report: a report of zero bytes (tx=0, rx=0 - what the server logs for an empty
+	// UDP datagram, since the UDP path reports len(msg.Data)) is a report like any other: it is the
+	// kicked user's "next traffic report" and must be refused exactly once, and with no kick pending
+	// it is accepted and adds nothing. Added after the independently seeded change C15-9 (LogTraffic
+	// returned true for tx==0 && rx==0 before consulting the KickMap, so an empty report neither
+	// honoured nor consumed a pending kick). Appended last so that recorded histories keep their
+	// operation numbers.
+	c15hReportU0
 	c15hNOps
 )
 
-var c15hNames = [...]string{"connect(u)", "disconnect(u)", "kick[u]", "report(u,1,16)", "connect(v)", "disconnect(v)", "kick[u,v]", "report(v,2,32)", "traffic", "traffic?clear=1", "online"}
+var c15hNames = [...]string{"connect(u)", "disconnect(u)", "kick[u]", "report(u,1,16)", "connect(v)", "disconnect(v)", "kick[u,v]", "report(v,2,32)", "traffic", "traffic?clear=1", "online", "report(u,0,0)"}
 
 func (o c15hOp) String() string { return c15hNames[o] }
 
@@ -191,6 +200,8 @@ func (y *c15hSys) Apply(op c15hOp) error {
 		err = y.report("u", 1, 16)
 	case c15hReportV:
 		err = y.report("v", 2, 32)
+	case c15hReportU0:
+		err = y.report("u", 0, 0)
 	case c15hTraffic:
 		err = y.traffic(false)
 	case c15hTrafficClear:
@@ -283,7 +294,7 @@ func c15hRun(sh *evidence.Shard) {
 		p := sh.Part("histories/first="+first.String(), "xstate")
 		p.Alphabet = map[string]any{
 			"operations": c15hNames[:],
-			"dimension":  "kick x online-state x report x poll in ONE sequential history (a pending kick must survive disconnect/reconnect, clears and other users' operations)",
+			"dimension":  "kick x online-state x report x poll in ONE sequential history (a pending kick must survive disconnect/reconnect, clears and other users' operations); report size: non-empty and zero-byte (tx=0, rx=0) reports of the kicked user",
 		}
 		p.Bounds = map[string]any{"max_depth": depth, "max_connections_per_user": c15hMaxConns, "users": 2}
 		mk := func() xstate.Sys[c15hOp] {
